@@ -120,6 +120,8 @@ impl EventSender<'_> {
         // while that thread is still about to wake it through `self.cqueue`.  Don't run on
         // (and possibly drop `self`, or let the cqueue be dropped) before it is done
         while self.wait_kernel.load(Ordering::Acquire) {
+            #[cfg(may_verif)]
+            crate::verif::pt("cq.send.spin_kernel", crate::verif::addr(self.cqueue), 0, 0);
             std::thread::yield_now();
         }
     }
